@@ -101,7 +101,7 @@ def run(tier, replay=None):
     import json as _json
     skel, gk = c01.generate(work / "skeletons", 2 if tier == "quick" else 3, allow_invalid=True)
     for c in skel:
-        if not c["valid"] or tier == "thorough":
+        if not c["valid"] or "fromEmpty" in c["path"] or tier == "thorough":
             cases.append(dict(kind="skeleton", src=c["id"], toks=[], text=render.program(_json.loads(_json.dumps(c["prog"]["body"])))))
     # plus the untouched corpus and its token-joined form
     for s in srcs:
